@@ -87,14 +87,20 @@ POOL = ["ret", "nop", "push rax", "clc", "nop2", "xor eax, eax", "push r8", "add
         "vpaddb ymm1, ymm2, ymm3", "vperm2i128 ymm1, ymm2, [rax+rcx*4+0x12345], 0x5", "paddb xmm1, xmm2", "mulx r8, r9, [rsi]", "cmovne rax, r11",
         "shl rax, 0x5", "movq xmm1, rax", "jmp 0x4", "jne -0x1000", "call rax", "push 0x5", "imul rax, rcx, 0x5", "setc al", "bzhi rax, rcx, rdx",
         # literals beyond 64 bits (accepted and clamped by the library: whatever they do, they must not influence later lines or calls)
-        "add rcx, 0x1ffffffffffffffff", "push 99999999999999999999999", "mov rax, [rbx+0x10000000000000000]"]
+        "add rcx, 0x1ffffffffffffffff", "push 99999999999999999999999", "mov rax, [rbx+0x10000000000000000]",
+        # displacements wider than 32 bits (accepted and truncated by the library: whatever they do, no write may leave the buffer)
+        "mov rax, [rbx+0x123456789]", "add dword [rcx+rdx*2+0x1000000ff], 1", "lea rax, [rbx+0xffffffff80]", "mov rax, [rbx+4294967424]"]
 BADLINES = ["bogus rax", "mov [rax], [rbx]", "add rax, rxx", "lea rax, [rsp+rsp]"]
 OPTSENS = ["mov rax, 0x5", "mov rax, 0x0000000000000005", "lea rcx, [rax+rsp]", "lea rcx, [2*rax]", "mov rdx, 1234", "lea rcx, [4*rdx+0x10]",
-           "add qword [rax+rsp], 5", "add qword [2*rax], 5", "mov dword [2*rcx], 100", "imul rax, [rbx+rsp], 10", "add qword [rax+rsp], 0x5", "cmp byte [8*rdx], 7"]
+           "add qword [rax+rsp], 5", "add qword [2*rax], 5", "mov dword [2*rcx], 100", "imul rax, [rbx+rsp], 10", "add qword [rax+rsp], 0x5", "cmp byte [8*rdx], 7",
+           "lea rcx, [1*rax]", "mov rcx, [1*rdx]", "add qword [1*r12+0x10], 5", "lea rcx, [1*rax+0x10]", "push qword [r9+rsp]", "call [2*r9]", "vpxor ymm0, ymm1, [2*r9]",
+           "mulx rax, rbx, [1*r13]", "bextr rax, [r9+rsp], rbx"]
 # the option dimensions each of these lines may depend on (C12: one dimension never changes what another one governs)
 DIMS = {"mov rax, 0x5": ["mov"], "mov rax, 0x0000000000000005": ["mov"], "lea rcx, [rax+rsp]": ["swap"], "lea rcx, [2*rax]": ["nobase"], "mov rdx, 1234": ["mov"],
         "lea rcx, [4*rdx+0x10]": ["nobase"], "add qword [rax+rsp], 5": ["swap"], "add qword [2*rax], 5": ["nobase"], "mov dword [2*rcx], 100": ["nobase"],
-        "imul rax, [rbx+rsp], 10": ["swap"], "add qword [rax+rsp], 0x5": ["swap"], "cmp byte [8*rdx], 7": ["nobase"]}
+        "imul rax, [rbx+rsp], 10": ["swap"], "add qword [rax+rsp], 0x5": ["swap"], "cmp byte [8*rdx], 7": ["nobase"],
+        "lea rcx, [1*rax]": ["nobase"], "mov rcx, [1*rdx]": ["nobase"], "add qword [1*r12+0x10], 5": ["nobase"], "lea rcx, [1*rax+0x10]": ["nobase"],
+        "push qword [r9+rsp]": ["swap"], "call [2*r9]": ["nobase"], "vpxor ymm0, ymm1, [2*r9]": ["nobase"], "mulx rax, rbx, [1*r13]": ["nobase"], "bextr rax, [r9+rsp], rbx": ["swap"]}
 
 
 class Lines:
@@ -181,7 +187,8 @@ class Script:
         self.meta.append({})
 
     def chunk(self, i, c):
-        self._st(i)["fit"] = c if c >= 2 else 0
+        # (sizes above 2^30 behave like 2^30 for every buffer the harness uses: the events and the twin carry the clipped value)
+        self._st(i)["fit"] = min(c, 1 << 30) if c >= 2 else 0
         self.lines.append("K %d %d" % (i, c))
         self.meta.append({})
 
@@ -618,11 +625,11 @@ def run(prop, tier, replay=None):
         for k in range(nrand):
             scripts.append(random_history("%s-r%d" % (prop, k), L, rnd, flavour))
         if prop in ("C08", "C06"):
-            scripts += [x for x in c08_boundary(L, rnd, tier) if prop == "C08" or x.sid.startswith("C08-s")]
+            scripts += [x for x in c08_boundary(L, rnd, tier) if prop == "C08" or x.sid.startswith(("C08-s", "C08-o"))]
         if prop == "C13":
             scripts += c13_boundary(L, rnd, tier)
         if prop == "C14":
-            scripts += [x for x in c13_boundary(L, rnd, tier) if x.sid.startswith("C13-g")]
+            scripts += [x for x in c13_boundary(L, rnd, tier) if x.sid.startswith(("C13-g", "C13-q"))]
         if prop == "C07":
             scripts += c07_boundary(L, rnd, tier)
         if prop in ("C15", "C13"):
@@ -850,6 +857,26 @@ def c08_boundary(L, rnd, tier):
                     sc.asm(1, small, [L.text[x] for x in small], count=(16 if mode == "count" else None))
                     sc.asm(1, small[:1], [L.text[x] for x in small[:1]])
                     out.append(sc)
+    # start offsets anywhere in a large caller buffer and in a library-managed buffer that has grown (asm_set_offset beyond 6020)
+    for off in (6019, 6020, 6021, 6100, 8192, 12000, 16300):
+        for mode in ("plain", "count"):
+            sc = Script("C08-o%d" % n); n += 1
+            sc.create(1, "ext", 16384)
+            sc.offset(1, off)
+            sc.asm(1, small, [L.text[x] for x in small], count=(16 if mode == "count" else None), twin=(off + 40 < 16384))
+            sc.asm(1, small[:1], [L.text[x] for x in small[:1]])
+            out.append(sc)
+    for off in (6021, 6500, 8000, 8979):
+        sc = Script("C08-o%d" % n); n += 1
+        sc.create(1, "int", 0)
+        sc.mirror(1)
+        body = build(9000)
+        sc.asm(1, body, [L.text[x] for x in body])
+        sc.offset(1, off)
+        sc.asm(1, small, [L.text[x] for x in small])
+        sc.offset(1, 9000)
+        sc.asm(1, small[:1], [L.text[x] for x in small[:1]])
+        out.append(sc)
     # executable programs: nops, then mov rax, v ; ret, across a growth
     if tailkey:
         for mult in mults:
@@ -910,6 +937,33 @@ def c13_boundary(L, rnd, tier):
                         sc.offset(1, pos)
                         sc.asm(1, [k2, k1, k2], [L.text[k2], L.text[k1], L.text[k2]], count=(c if mode == "count" else None), twin=True)
                         out.append(sc)
+    # chunk sizes that only differ from a small one above bit 31 (fitting: the size is a size_t): no chunk end lies inside the buffer
+    for c in ((1 << 32) + 9, (1 << 32) + 16, (1 << 31) + 8, 3 * (1 << 32) + 12, (1 << 40) + 5, (1 << 32), (1 << 31)):
+        low = c % (1 << 32)
+        if not 2 <= low <= 4096:
+            low = 16          # (no small chunk hides in the low bits: any position will do)
+        for ln in (7, 10, 13):
+            if not L.bylen.get(ln):
+                continue
+            k1 = rnd.choice(L.bylen[ln]); k2 = rnd.choice(L.bylen[3])
+            sc = Script("C13-w%d" % n); n += 1
+            sc.create(1, "ext", 3 * low + 300)
+            sc.chunk(1, c)
+            sc.offset(1, low - 2)
+            sc.asm(1, [k2, k1, k2, k1], [L.text[k2], L.text[k1], L.text[k2], L.text[k1]], twin=True)
+            out.append(sc)
+    # counting with a chunk size above the initial capacity of a library-managed buffer, the program growing across it
+    k11 = min(L.bylen[11], key=lambda x: len(L.text[x])) if L.bylen.get(11) else None
+    if k11:
+        for c in (6021, 6500, 7000, 12000, 12021, 20000):
+            for start in (0, 2, 7):
+                keys = [k11] * ((2 * c) // 11 + 3)
+                sc = Script("C13-q%d" % n); n += 1
+                sc.create(1, "int", 0)
+                if start:
+                    sc.offset(1, start)
+                sc.asm(1, keys, [L.text[x] for x in keys], count=c)
+                out.append(sc)
     return out
 
 
@@ -1137,6 +1191,18 @@ def c17_scenarios(L, rnd):
         sc.asm(1, small, [L.text[k] for k in small])
         sc.asm_file(1, small, smallfile, count=cnt, twin=False)
         sc.asm_file(1, long_keys[: 6100 // bl], bigfile, count=cnt, twin=False)
+        sc.asm(1, small, [L.text[k] for k in small])
+        sc.destroy(1)
+    # degenerate file sizes: an empty file, a single byte, a single line without line end
+    emptyfile = os.path.join(d, "empty.asm"); open(emptyfile, "w").close()
+    onebyte = os.path.join(d, "one.asm"); open(onebyte, "w").write("\n")
+    oneline = os.path.join(d, "line.asm"); open(oneline, "w").write(L.text[small[0]])
+    for cnt in (None, 8):
+        sc = S("file-tiny-" + ("count" if cnt else "plain")); sc.create(1, "ext", 300)
+        sc.asm(1, small, [L.text[k] for k in small])
+        sc.asm_file(1, [], emptyfile, count=cnt, twin=False)
+        sc.asm_file(1, [], onebyte, count=cnt, twin=False)
+        sc.asm_file(1, small[:1], oneline, count=cnt, twin=False)
         sc.asm(1, small, [L.text[k] for k in small])
         sc.destroy(1)
     sc = S("binfile"); sc.create(1, "ext", 300); sc.asm(1, small * 3, [L.text[k] for k in small * 3])
